@@ -900,6 +900,7 @@ def c13(ctx):
             ctx.mismatches.append({"what": "result-depends-on-history", "fn": m["fn"], "expr": m["expr"], "list": m["list"],
                                    "expected": {k: fresh.get(k) for k in keys}, "observed": m["observed"],
                                    "source": "sessions: in-session result vs the same call alone in a fresh process"})
+    large_inputs(ctx)
     return finish(ctx, relevant={"argument-mutated", "mutated", "result-depends-on-schedule", "result-depends-on-history", "data-race",
                                  "wrote-to-stdout", "hang"},
                   rule="TLC enumerates every interleaving of the stage steps of 2-3 concurrent calls sharing argument slices; each complete "
